@@ -8,6 +8,7 @@ CONSTANTS
   InitDoc = TRUE
   FeedInit = "start"
   DeliverLast = FALSE
+  EnterGate = FALSE
   PostUnderLock = FALSE
   RegisterAtomic = FALSE
 CHECK_DEADLOCK FALSE
